@@ -81,6 +81,11 @@ def gate(kind):
 def get_units():
     us = []
     for kind in ('socket', 'rtu', 'binary', 'ascii'):
+        # the same gate with every loop of processIncomingPacket CUT at the trivial invariant: each iteration starts from a havoc'd
+        # buffer/header (sound for any loop structure; counter-models live in havoc'd state and cannot be replayed - a failure is
+        # reported against the baseline as no-failing-input-found)
+        us.append(Unit('%s/gate.cut.%s' % (PROP, kind), gate(kind), [PROP], contracts=CS, loops=F.loop_anns(kind),
+                       functions=[F.QUAL[kind] + '.processIncomingPacket']))
         # the receive loop is entered from an arbitrary (buffer, header): its first iteration *is* the arbitrary iteration
         # (type invariant of the loop-head state: a byte string and a header over the framer's fixed key set); later
         # iterations of the same call start from states of the same class and are cut
